@@ -31,6 +31,10 @@ def handleRescue (j : Json) : R Json := do
       | .error _ => []
     pure (obj [
       ("filtered", ofList ofPepInfo out.filtered),
+      ("N_model", ofGroups (C04.subsetOf filtered)),
+      ("same_with_model_N", .bool (match C04.rescueGroups (old.zip infos) pil cutoff cuts with
+        | .ok o2 => o2.groups == out.groups && o2.obsolete == out.obsolete
+        | .error _ => false)),
       ("identified", ofList ofNat (C04.identifiedIdxs n filtered)),
       ("prot_nodes", ofStrs (C04.protNodes n filtered)),
       ("edges", ofList (fun e => ofStrs [e.1, e.2]) (C04.edges n filtered)),
@@ -42,6 +46,17 @@ def handleRescue (j : Json) : R Json := do
       ("second_pass", ofGroups (C04.secondPassGroups out)),
       ("reported", ofGroups (C04.reported (C04.secondPassGroups out)))])
 
+/-- `{"op":"rescue_score","rows":[[score,qvalue]…],"threshold":[n,d]}` → `{"score":[n,d]}` | `{"err":"no_rows"}` -/
+def handleRescueScore (j : Json) : R Json := do
+  let rows ← jlist (fun r => do
+    match r with
+    | .arr #[s, q] => pure ((← jrat s), (← jrat q))
+    | _ => .error s!"expected [score, qvalue], got {r.compress}") (← jget j "rows")
+  let thr ← jrat (← jget j "threshold")
+  match C04.rescueScore rows thr with
+  | none => pure (ofErr "no_rows")
+  | some s => pure (obj [("score", ofRat s)])
+
 /-- protocol handlers of property C04: (op name, handler) -/
-def handlersC04 : List (String × (Json → R Json)) := [("rescue", handleRescue)]
+def handlersC04 : List (String × (Json → R Json)) := [("rescue", handleRescue), ("rescue_score", handleRescueScore)]
 end PgFdr.Driver
